@@ -32,14 +32,44 @@ unsigned count_loops(const Units &u) {
     return n;
 }
 
+// Extra members for object roots (switched on by a field of the case, so older replay files keep their value): a string without
+// storage, a short string next to a longer one that continues with NULs, and "T": the text of the template from its first "abc"
+// to its end plus one more unit - a value aimed at the template, so that a comparison of the literal abc... with {var:T} that
+// looked at characters before looking at lengths would walk off the end of the exact-size template buffer.
 template <typename Char_T>
-Outcome render_units(const Units &units, int value_id, bool cached, pbt::Ctx &ctx) {
+void add_extras(Value<Char_T> &value, const Units &units) {
+    if (!value.IsObject()) {
+        return;
+    }
+    value[tv::Key<Char_T>("q0").v()] = String<Char_T>{};
+    value[tv::Key<Char_T>("sh").v()] = tv::str<Char_T>("ab");
+    {
+        Units lg = {'a', 'b', 0, 0, 0, 0, 0, 0};
+        jm::Buf<Char_T> b(lg);
+        value[tv::Key<Char_T>("lg").v()] = String<Char_T>{b.cp(), SizeT(b.n)};
+    }
+    for (size_t k = 0; k + 2 < units.size(); ++k) {
+        if (units[k] == 'a' && units[k + 1] == 'b' && units[k + 2] == 'c') {
+            Units t(units.begin() + long(k), units.end());
+            t.push_back('!');
+            jm::Buf<Char_T> b(t);
+            value[tv::Key<Char_T>("T").v()] = String<Char_T>{b.cp(), SizeT(b.n)};
+            break;
+        }
+    }
+}
+
+template <typename Char_T>
+Outcome render_units(const Units &units, int value_id, bool cached, pbt::Ctx &ctx, bool extras = false) {
     using V  = Value<Char_T>;
     using SS = StringStream<Char_T>;
     using TC = TemplateCore<Char_T, V, SS>;
     Outcome o;
     V       value;
     tv::build<Char_T>(value_id, value);
+    if (extras) {
+        add_extras<Char_T>(value, units);
+    }
     SS before;
     value.Stringify(before, 17U);
     jm::Buf<Char_T> b(units);
@@ -82,12 +112,12 @@ Outcome render_units(const Units &units, int value_id, bool cached, pbt::Ctx &ct
     return o;
 }
 
-Outcome render_width(const Units &u, int width, int value_id, bool cached, pbt::Ctx &ctx) {
+Outcome render_width(const Units &u, int width, int value_id, bool cached, pbt::Ctx &ctx, bool extras = false) {
     switch (width) {
-        case 1: return render_units<char>(u, value_id, cached, ctx);
-        case 2: return render_units<char16_t>(u, value_id, cached, ctx);
-        case 3: return render_units<wchar_t>(u, value_id, cached, ctx);
-        default: return render_units<char32_t>(u, value_id, cached, ctx);
+        case 1: return render_units<char>(u, value_id, cached, ctx, extras);
+        case 2: return render_units<char16_t>(u, value_id, cached, ctx, extras);
+        case 3: return render_units<wchar_t>(u, value_id, cached, ctx, extras);
+        default: return render_units<char32_t>(u, value_id, cached, ctx, extras);
     }
 }
 
@@ -99,7 +129,23 @@ struct Case {
     bool                 cached{false};
     Units                raw; // explicit units (hand-written regression cases), used when non-empty or raw_set
     bool                 raw_set{false};
+    int                  gen2{0}; // 1: the value gets add_extras() and one template in twelve is an "aimed comparison" (absent in older files: 0)
 };
+
+// expressions that compare a literal / a short or storage-less string with a value that is longer, as the last thing in the template
+Units aimed_template(jm::Entropy &e, std::string *ops) {
+    static const char *t[] = {"{math:abc=={var:T}}", "{math:abc!={var:T}}", "x{if case=\"abc=={var:T}\" true=\"y\"}", "<if case=\"abc!={var:T}\">y</if>",
+                              "{math:{var:q0}=={var:s}}", "{if case=\"{var:q0}!={var:ns}\" true=\"1\" false=\"0\"}", "{math:{var:sh}=={var:lg}}",
+                              "<if case=\"{var:sh}!={var:lg}\">y<else />n</if>", "{math:{var:q0}=={var:T}}abc", "{math:(abc=={var:T})}", "{math:1+(abc=={var:T})}",
+                              "<loop value=\"v\">{if case=\"{var:v}=={var:lg}\" true=\"=\"}</loop>{math:abc=={var:T}}"};
+    const unsigned     k  = e.below(12);
+    if (ops) *ops += "aimed-comparison=" + std::to_string(k) + ";";
+    Units u;
+    for (const char *p = t[k]; *p; ++p) {
+        u.push_back((unsigned char)*p);
+    }
+    return u;
+}
 
 // templates built around the width of the scanner's offset / counter fields (8 and 16 bit) and around bracket edge cases
 Units boundary_template(jm::Entropy &e, std::string *ops) {
@@ -185,6 +231,9 @@ Units make_template(const Case &c, std::string *ops = nullptr) {
         return c.raw;
     }
     jm::Entropy e(c.bytes);
+    if (c.gen2 != 0 && !c.bytes.empty() && (c.bytes.back() % 12) == 0) { // decided by the last byte: the decoding below is untouched
+        return aimed_template(e, ops);
+    }
     if (e.chance(7)) {
         return boundary_template(e, ops);
     }
@@ -261,13 +310,14 @@ struct H {
     static rc::Gen<Case> gen() {
         using namespace rc;
         return gen::map(gen::tuple(gen::resize(300, gen::container<std::vector<uint8_t>>(gen::arbitrary<uint8_t>())), pbt::pick<int>({1, 1, 1, 2, 4, 3}),
-                                   pbt::range<int>(0, tv::kPalette - 1), gen::arbitrary<bool>()),
-                        [](std::tuple<std::vector<uint8_t>, int, int, bool> t) {
+                                   pbt::range<int>(0, tv::kPalette - 1), gen::arbitrary<bool>(), pbt::pick<int>({0, 1, 1})),
+                        [](std::tuple<std::vector<uint8_t>, int, int, bool, int> t) {
                             Case c;
                             c.bytes    = std::get<0>(t);
                             c.width    = std::get<1>(t);
                             c.value_id = std::get<2>(t);
                             c.cached   = std::get<3>(t);
+                            c.gen2     = std::get<4>(t);
                             return c;
                         });
     }
@@ -282,6 +332,7 @@ struct H {
         kv.put("width", c.width);
         kv.put("value", c.value_id);
         kv.put("cached", c.cached ? 1 : 0);
+        kv.put("gen2", c.gen2);
         if (c.raw_set) {
             kv.put("raw", pbt::enc_units(c.raw));
         } else {
@@ -303,6 +354,7 @@ struct H {
         c.width    = int(kv.geti("width", 1));
         c.value_id = int(kv.geti("value"));
         c.cached   = kv.geti("cached") != 0;
+        c.gen2     = int(kv.geti("gen2", 0));
         if (kv.has("raw")) {
             c.raw_set = true;
             c.raw     = pbt::dec_units(kv.get("raw"));
@@ -314,10 +366,11 @@ struct H {
         if (count_loops(u) > kMaxLoops) {
             ctx.discard();
         }
-        Outcome o = render_width(u, c.width, c.value_id, c.cached, ctx);
+        Outcome o = render_width(u, c.width, c.value_id, c.cached, ctx, c.gen2 != 0);
         if (o.has_tags) {
             ctx.nontrivial();
         }
+        ctx.label("value-with-aimed-extras", c.gen2 != 0);
         ctx.label(o.has_tags ? "has-tags" : "no-tags");
         ctx.label(c.cached ? "cached" : "direct");
     }
@@ -375,7 +428,7 @@ extern "C" int LLVMFuzzerTestOneInput(const uint8_t *data, size_t size) {
     Qentem::MemoryRecord::Reset();
     ++g_ctx.evaluations;
     try {
-        Outcome o = render_width(u, width, value_id, cached, g_ctx);
+        Outcome o = render_width(u, width, value_id, cached, g_ctx, ((data[0] >> 6) & 1) != 0);
         g_ctx.label(o.has_tags ? "has-tags" : "no-tags");
         if (o.has_tags) {
             ++g_ctx.nontrivial_total;
